@@ -3,8 +3,10 @@
 Decides structural clauses only (see DESIGN.md section 4, C15).  The acceptance *law* as a
 probability statement and run splitting are not decided."""
 from tsg.facts import DB, strip, txt, callee, call_args, call_object, walk, const_val
-from tsg.flow import UpperBounds, var_of, base_var, element_writes, writes_to_var
+from tsg.flow import UpperBounds, var_of, base_var, element_writes, writes_to_var, cond_edges_dominating, is_reachable
 from tsg.build import AnalysisBroken
+from tsg.taint import carrier
+from tsg.typestate import member_writes, must_pass_after, member_of
 
 STATE = "TasDREAM::TasmanianDREAM"
 
@@ -50,35 +52,6 @@ def local_decl(fn, did):
         if n.get("k") == "VarDecl" and n.get("did") == did:
             return n
     return None
-
-
-def cond_edges_dominating(fn, node):
-    """list of (cond_node, truth) such that `node` executes only if cond evaluated to truth
-    (the block of node is dominated by that successor and not by the other)"""
-    cfg = fn.cfg
-    w = cfg.block_of(node)
-    if w is None:
-        return []
-    b = w[0]
-    out = []
-    for bid, blk in cfg.blocks.items():
-        cs = cfg.cond_succ(bid)
-        if cs is None or blk.get("termk") == "SwitchStmt":
-            continue
-        cid, t, f = cs
-        if t is None or f is None or t == f:
-            continue
-        cn = fn.nodes.get(cid)
-        if cn is None:
-            continue
-        # a successor with another predecessor does not imply the edge was taken
-        dt = cfg.dominates(t, b) and len(list(cfg.G.predecessors(t))) == 1
-        df = cfg.dominates(f, b) and len(list(cfg.G.predecessors(f))) == 1
-        if dt and not df:
-            out.append((cn, True))
-        elif df and not dt:
-            out.append((cn, False))
-    return out
 
 
 def run(chk):
@@ -137,10 +110,11 @@ def run(chk):
                     a = strip(args[pi])
                     v = var_of(a)
                     st = ub.before(call)
-                    ok = v is not None and st is not None and (v, bound) in st
+                    dead = not is_reachable(fn, call)
+                    ok = dead or (v is not None and st is not None and (v, bound) in st)
                     n_index += 1
                     chk.ob("C15-D1.index", fname, "%s arg%d=%s" % (cal.rsplit("::", 1)[-1], pi, txt(a)) + ("#%d" % sum(1 for o in chk.obls if o["function"] == fname and o["construct"].startswith("%s arg%d=%s" % (cal.rsplit("::", 1)[-1], pi, txt(a))))),
-                           ok, fn.loc(call), "no fact '%s < %s' reaches this call on every path" % (txt(a), bound) if not ok else "fact %s < %s holds" % (txt(a), bound),
+                           ok, fn.loc(call), "no fact '%s < %s' reaches this call on every path" % (txt(a), bound) if not ok else ("dead code in this instantiation" if dead else "fact %s < %s holds" % (txt(a), bound)),
                            "%s < %s on all paths" % (txt(a), bound))
         # D1.local: subscripts of local vectors sized by the bound
         sized = {}
@@ -325,6 +299,8 @@ def run(chk):
             # the random tests happen only for valid proposals
             okv = True
             for n, t in assigns:
+                if not is_reachable(fn, n):
+                    continue
                 ed = [(txt(strip(cn)), truth) for cn, truth in cond_edges_dominating(fn, n)]
                 if not any(truth and s.startswith(tuple(sized[v] for v in valid)) for s, truth in ed):
                     okv = False
@@ -332,6 +308,48 @@ def run(chk):
         if not found:
             raise AnalysisBroken("accept/reject if-statement not found in " + fname)
     chk.floor("C15-D1.index", n_index, 2 * 7, "chain-index arguments of TasmanianDREAM accessors")
+
+
+    # ---------------- D4: cached pdf values are a function of the chain state
+    # frozen table (confirmed by reading): SampleDREAM evaluates the pdf only when !isPDFReady(), so
+    # (pdf_values, init_values) is a cache of pdf(state); init_state guards state.
+    chk.rule("C15-D4.cache", "TasmanianDREAM: every method that modifies the chain state decides the validity flag of the cached pdf values on all paths after the write "
+                             "(init_values = false, or new values stored with init_values = true); init_values = true only after pdf_values was written")
+    DATA, CACHE, FLAG = STATE + "::state", STATE + "::pdf_values", STATE + "::init_values"
+    nd4 = 0
+    for fn in db.all_functions(["DREAM/tsgDreamState.hpp", "DREAM/tsgDreamState.cpp"]):
+        if fn.cls != STATE or fn.d.get("const") or fn.d.get("isctor") or fn.d.get("isdtor"):
+            continue
+        ws = list(member_writes(fn))
+        dws = [n for n, f, kd in ws if f == DATA]
+        fws = [(n, f) for n, f, kd in ws if f == FLAG]
+        if dws:
+            chk.saw(fn)
+            nd4 += 1
+            last = dws[-1]
+            ok = all(must_pass_after(fn, w, lambda n: any(x is n for x, _ in fws)) for w in dws)
+            chk.ob("C15-D4.cache", fn.key + fn.sig, "state written => init_values decided", ok, fn.loc(last),
+                   "" if ok else "a path leaves %s after modifying the chain state without touching init_values: stale pdf values stay 'ready'" % fn.name.rsplit("::", 1)[-1])
+        for n, f in fws:
+            rhs = strip(n["c"][1]) if n.get("k") == "BinaryOperator" else None
+            if rhs is not None and txt(rhs) == "true":
+                chk.saw(fn)
+                nd4 += 1
+                from tsg.typestate import must_pass_before
+                ok = must_pass_before(fn, n, lambda x: any(y is x and ff == CACHE for y, ff, _ in ws))
+                chk.ob("C15-D4.cache", fn.key + fn.sig, "init_values = true only after pdf_values written", bool(ok), fn.loc(n))
+    chk.floor("C15-D4.cache", nd4, 4, "state writers / flag setters in TasmanianDREAM")
+    # the sampler commits state and values as a pair (checked in D3.books) and refreshes a non-ready cache
+    for fn in cores:
+        ready = [c for c in fn.calls(STATE + "::isPDFReady", into_lambda=False)]
+        oks = False
+        for c in ready:
+            for sp in fn.calls(STATE + "::setPDFvalues", into_lambda=False):
+                if carrier(call_args(sp)[0]) == ("var", {p["name"]: p["did"] for p in fn.params()}.get("probability_distribution")):
+                    ed = [(txt(strip(cn)), tr) for cn, tr in cond_edges_dominating(fn, sp)]
+                    if ("!state.isPDFReady()", True) in ed or ("state.isPDFReady()", False) in ed:
+                        oks = True
+        chk.ob("C15-D4.cache", fn.key, "sampler recomputes pdf values when the cache is not ready", oks, fn.where)
 
     # form selection: the regform instantiation must take the ratio branch, logform the log branch
     chk.rule("C15-D3.form", "the constant test selecting ratio vs log form compares the template argument with regform, ratio in the true branch")
